@@ -48,7 +48,7 @@ ASSUMPTIONS = [
     "the failing line of an exception is the line CPython reports for the outermost frame inside the doctest",
 ]
 STYLES = ['auto', 'google', 'freeform']
-FAIL_KINDS = (None, None, 'exc', 'exc_multi', 'exc_multi_new', 'want', 'want_after_multi', 'want_after_bare', 'rt_syntax', 'modfunc', 'helper_long', 'helper_short')
+FAIL_KINDS = (None, None, 'exc', 'exc_multi', 'exc_multi_new', 'want', 'want_after_multi', 'want_after_bare', 'rt_syntax', 'modfunc', 'helper_long', 'helper_short', 'bad_directive')
 
 
 def ref_fail_line(lines, x):
@@ -141,7 +141,7 @@ def _check_example(e, x, lines, style, ctx, DoctestPart):
         if e.failed_lineno() is not None:
             raise Violation('failed_lineno_on_pass', 'doctest {} passed but failed_lineno() = {}'.format(ident, e.failed_lineno()))
         return
-    if x['exc'] != 'GotWantException':
+    if x['exc'] not in ('GotWantException', 'Exception'):     # ('Exception': a directive that cannot be applied; no business of CPython)
         ref_line, ref_exc = ref_fail_line(lines, x)
         if ref_line != exp_fail or ref_exc != x['exc']:
             raise HarnessError('generator bookkeeping disagrees with CPython: {} vs {} ({} vs {})\n{}'.format(
@@ -191,6 +191,8 @@ def _fail_kind(lines, x):
     if x['exc'] == 'GotWantException':
         prev = lines[x['fail_line'] - 2].strip()
         return 'want_after_multi' if prev.startswith('...') else 'want'
+    if 'nosuchkind' in s:
+        return 'bad_directive'
     if 'vp_module_boom' in s:
         return 'modfunc'
     if 'other_file.py' in s:
